@@ -13,7 +13,8 @@
 (*                  and D = round((H(2 coeffs) - 16 H(coeffs)) / rho).     *)
 (*  api = "split"   split-cross schemes: the interpolation rows of the     *)
 (*                  cross points as the mapper reports them, in fixed      *)
-(*                  point (unit 1/T), W, S, Hs = round(H * S^2 * T^2 / g). *)
+(*                  point (unit 1/T), W = round(w*S), Hs = round(H*S^2*T^2)*)
+(*                  (constant split: H divided by the dyadic c^2, W = 1).  *)
 (*  api = "kernel"  Gaussian / exponential kernel schemes: Hs = round(H*S) *)
 (*                  and, for n <= 4, Hp = round(H * Sp) with small entries *)
 (*                  for the Sylvester certificate.                         *)
@@ -47,7 +48,7 @@ ExactClauses(r) ==
        IN IF needW /\ ~ IsVec(r.W, n) THEN << "weights-size-is-param-count" >>
           ELSE
             Cl("symmetric", r.sym /\ IsSym(r.Hq, n) /\ IsSym(r.Hr, n))
-            \o Cl("neighbour-table-lists-pairs-from-both-sides", TableOk(r.N))
+            \o Cl("neighbour-table-lists-pairs-from-both-sides", HasRidge(r.scheme) => TableOk(r.N))
             \o Cl("matrix-of-the-stated-quadratic-form", r.Hq = WantQ(r.scheme, P, n, pr))
             \o Cl("ridge-on-the-diagonal-only", r.Hr = WantR(r.scheme, n))
             \o (IF n <= MaxTernary
@@ -73,6 +74,7 @@ FixedDiag(r, P, a) ==
   IN d >= -tol /\ d <= tol + RidgeUnits(r.S * r.S)
 FixedClauses(r) ==
   IF r.raised THEN << "no-exception" >>
+  ELSE IF r.offlattice THEN << "result-finite-and-within-the-fixed-point-range" >>
   ELSE IF ~ (r.rows = r.n /\ r.cols = r.n /\ IsSquare(r.Hs, r.n) /\ Len(r.N) = r.n /\ r.wlen = r.n /\ IsVec(r.W, r.n))
        THEN << "size-is-param-count" >>
   ELSE LET n == r.n P == Pairs(r.N) IN
@@ -138,6 +140,7 @@ SplitClauses(r) ==
 \* (one more unit for the float asymmetry of the inversion) gives lambda_min(Hp) > m > ||E||, hence H positive definite.
 KernelClauses(r) ==
   IF r.raised THEN << "no-exception" >>
+  ELSE IF r.offlattice THEN << "result-finite" >>
   ELSE IF ~ (r.rows = r.n /\ r.cols = r.n /\ IsSquare(r.Hs, r.n) /\ r.wlen = r.n) THEN << "size-is-param-count" >>
   ELSE LET n == r.n IN
        Cl("symmetric-at-record-resolution", \A a, b \in 1 .. n : Abs(r.Hs[a][b] - r.Hs[b][a]) <= 1)
